@@ -98,7 +98,7 @@ def cfg_tag(cfg):
                             'U' if cfg.get('udf') else '', 'X' if cfg.get('xa') else '')
 
 
-def run(ctx, force=None, focus='C01', n_quick=300, n_thorough=6000, post=None):
+def run(ctx, force=None, focus='C01', n_quick=300, n_thorough=6000, post=None, reopen_every=None, opmix=None, sizes=None):
     tmpdir = tempfile.mkdtemp(prefix='verif-%s-' % focus.lower())
     try:
         n = n_quick if ctx.quick else n_thorough
@@ -107,7 +107,7 @@ def run(ctx, force=None, focus='C01', n_quick=300, n_thorough=6000, post=None):
             rng = random.Random(seed)
             cfg = gen.sample_cfg(rng, force)
             nops = rng.choice([6, 10, 16, 25] if ctx.quick else [10, 20, 40, 80])
-            c = histcheck.build_case(ctx, rng, cfg, nops, tmpdir)
+            c = histcheck.build_case(ctx, rng, cfg, nops, tmpdir, reopen_every=reopen_every, opmix=opmix)
             rep = check_case(ctx, c, focus)
             if post is not None and rep is not None:
                 post(ctx, c, rep)
@@ -118,7 +118,7 @@ def run(ctx, force=None, focus='C01', n_quick=300, n_thorough=6000, post=None):
                 except OSError:
                     pass
             try:
-                c.iso.close()
+                c.session.close()
             except Exception:
                 pass
             if ctx.time_left() < 20:
